@@ -74,7 +74,7 @@ def run(S):
     # two passes with the real parser in between: whole documents (tables, content blocks, chains, imports, equations, lists, prose), blanks symbolic,
     # the renderer interpreted at representative widths
     from . import reparse, deep
-    rdocs = reparse.TABLE_DOCS + reparse.NORMALISE_DOCS + reparse.BLOCK_DOCS + reparse.MISC_DOCS + deep.DOCS + deep.PROSE + reparse.corpus_docs(S) + reparse.in_contexts(reparse.COMMENT_DOCS) + reparse.PROSE_LINE_DOCS + reparse.EVAL_DOCS + ['#f(a, /* @typstyle off */\n b  +  c)\n', '$ mat(a, // c\n b; c) $\n', 'text #box[- a\n           b]\n', '#let x = [ #f(aaaaaaaaaaaa, bbbbbbbbbbbbbb, cccccccccccccc, ddddddddddddd, eeeeeeeeeeeeee, fffffffffff)]\n', 'a #[ /* c */] b\n', '==/* c */\n']
+    rdocs = reparse.TABLE_DOCS + reparse.NORMALISE_DOCS + reparse.BLOCK_DOCS + reparse.MISC_DOCS + reparse.corpus_docs(S) + (reparse.COMMENT_DOCS if S.tier == 'quick' else deep.DOCS + deep.PROSE + reparse.in_contexts(reparse.COMMENT_DOCS)) + reparse.PROSE_LINE_DOCS + reparse.EVAL_DOCS + ['#f(a, /* @typstyle off */\n b  +  c)\n', '$ mat(a, // c\n b; c) $\n', 'text #box[- a\n           b]\n', '#let x = [ #f(aaaaaaaaaaaa, bbbbbbbbbbbbbb, cccccccccccccc, ddddddddddddd, eeeeeeeeeeeeee, fffffffffff)]\n', 'a #[ /* c */] b\n', '==/* c */\n']
     if S.tier != 'quick':
         rdocs += deep.OFF_DOCS + deep.CODE_DOCS + deep.EMBED_DOCS
     fr, covr = reparse.explore(S, rdocs, tabs=(2,) if S.tier == 'quick' else (2, 4), widths=(0, 1 << 30) if S.tier == 'quick' else (0, 20, 40, 80, 120, 1 << 30))
